@@ -754,7 +754,7 @@ func main() {
 	runner.Main(runner.Spec{
 		ID:    "C11",
 		Level: "model_checking",
-		Rule: "stateless model checking of the real p2p.Conn under a controlled scheduler: for each closed system (typed-send sequence x flush placement x one/both directions x read regime) EVERY interleaving of the party threads and Conn writer goroutines with <= P preemptions and <= E read-size deviations (Read returns 1 byte / half / all-but-one instead of everything) is executed; oracle per execution: values equal in order and content, EOF after close, Stats.Sent/Recvd equal the link's byte counters, nothing left unread, no deadlock/panic. " +
+		Rule: "stateless model checking of the real p2p.Conn under a controlled scheduler: for each closed system (typed-send sequence x flush placement x one/both directions x read regime) EVERY interleaving of the party threads and Conn writer goroutines with <= P preemptions and <= E read-size deviations (Read returns 1 byte / half / all-but-one instead of everything) is executed; oracle per execution: values equal in order and content (and still equal when compared again after the later receives and Close: a returned slice must not alias the read buffer), EOF after close, Stats.Sent/Recvd equal the link's byte counters, nothing left unread, no deadlock/panic. " +
 			"states = distinct abstract scheduler states (thread program points + shim object states); transitions = scheduling steps; traces_validated_against_impl = complete executions of the implementation (every trace IS an implementation run)",
 		Assumptions: []string{
 			"sources of p2p are rewritten at check time (sync/atomic -> scheduler shims, channels -> csched.Chan, go -> csched.Go, net -> in-memory links); code between two synchronisation operations runs atomically",
